@@ -39,6 +39,12 @@ CHECKS = {
     design="5/C09",
     note="Trusted: Lean kernel; unambiguity of Python's grammar; the transcription of the grammar/tokens is validated against CPython's ast/tokenize on every text (sampled); statement/indentation structure is compared through CPython only. Fixed finding: n-way step substituted under a product without parentheses (commit 0f98053).",
     technique="Lean 4 proof (printer vs grammar derivation, by mutual well-founded recursion over the tree) + evaluation of PrecOK on the real compiler's trees + differential against CPython's parser"),
+ "C15": dict(
+    category="proof",
+    text="Lean theorems C15.frame / copied_handles_fresh / pure over a heap model of Python's reference cells: for every heap, every set of cells owned by the caller's Bindings object and every sequence of mutations a compilation may perform through component handles, the caller's view is unchanged provided the handles are fresh copies (the repaired hand-out); with the hand-out of the code as found a default write is visible (shared_counterexample). Tie: deep structural snapshots of the parsed Einsum/Mapping/Architecture/Bindings/Format objects before and after HiFiber(...); the theorem's premise (no container held by a component is a cell of the caller's Bindings) is checked by identity on the real objects; second compilation from the same objects must give the same text; text after unrelated compilations in the same interpreter and in a fresh interpreter must be identical; module/class-level state of every teaal module is scanned before/after.",
+    design="5/C15",
+    note="Trusted: Lean kernel; the heap model covers the Bindings cells only - the other four objects and process-level state are decided by the snapshot/differential observations (sampled over specifications and histories). Fixed finding: Bindings mutated by component construction (commit b0425c0).",
+    technique="Lean 4 frame theorem over a reference-cell heap model + snapshot/aliasing/repeatability/history differentials on the real compiler"),
 }
 
 NOT_YET = {}
